@@ -1182,6 +1182,8 @@ def run(chk, cases=None):
     if bad and not found_concrete:
         rec, _ = (judge_long if _wide(cases[bad[0]]) else judge)(chk, cases[bad[0]], outs[bad[0]])
         chk.report(rec, no_failing_input=True)
+    from props.c02_tie import source_tie  # source tie: the translated _string_matching(return_mistakes=True) / error_rate
+    source_tie(chk, cases, outs)
 
 
 def replay(chk, path):
